@@ -314,6 +314,10 @@ VARIANTS = [
     V('c11-splitter-counts-blanks', 'C11', 'bad', 'R11.11', SP, ("        self._begin_depth = 0\n", "            self.level += self._change_splitlevel(ttype, value)\n", "        if ttype is T.Keyword.DDL and unified.startswith('CREATE'):"), ("        self._begin_depth = 0\n        self._blanks = 0\n", "            if value == ' ':\n                self._blanks += 1\n            self.level += self._change_splitlevel(ttype, value)\n", "        if unified == 'IF' and self._blanks and self._is_create and self._begin_depth > 0:\n            return 0\n        if ttype is T.Keyword.DDL and unified.startswith('CREATE'):"), 'state kept in process distinguishes a blank from a line break'),
     V('c05-split-at-quoted-semicolon', 'C05', 'bad', 'R5.10', SP, "            if (self.level <= 0 and ttype is T.Punctuation and value == ';') \\", "            if (self.level <= 0 and value.strip('\"') == ';') \\", 'a quoted name that is a semicolon ends the statement'),
     V('c05-last-statement-dropped-if-comment', 'C05', 'ok', None, SP, "        if self.tokens and not all(t.is_whitespace for t in self.tokens):", "        if self.tokens and any(not t.is_whitespace for t in self.tokens):"),
+    V('c12-alias-any-ws-old', 'C12', 'bad', 'R12.9', S, "        idx, last = self.token_prev(len(self.tokens), skip_cm=True)\n        _, expr = self.token_prev(idx, skip_cm=True)\n        _, sep = self.token_prev(idx, skip_ws=False)\n        if (expr is not None and not expr.match(T.Punctuation, '.')\n                and sep is not expr):\n            return self._get_first_name(idx)", "        _, ws = self.token_next_by(t=T.Whitespace)\n        if len(self.tokens) > 2 and ws is not None:\n            return self._get_first_name(reverse=True)", 'the defect fixed by 9afb50c'),
+    V('c12-alias-period-forgotten', 'C12', 'bad', 'R12.9', S, "        if (expr is not None and not expr.match(T.Punctuation, '.')\n                and sep is not expr):", "        if expr is not None and sep is not expr:"),
+    V('c12-alias-sep-identity', 'C12', 'bad', 'R12.9', S, "                and sep is not expr):", "                and sep.ttype is T.Whitespace):", 'a line break in front of the alias'),
+    V('c12-alias-sep-flag-ok', 'C12', 'ok', None, S, "                and sep is not expr):", "                and (sep.is_whitespace or sep is not expr)):"),
 ]
 
 WHOLE_FILE = {
